@@ -31,7 +31,9 @@ RULE = (
     "part C patches.  After every operation a recursive snapshot (type, mode, inode, size, mtime, content, link target) of the "
     "whole per-case scratch root minus the work tree's own files is compared with the one before.  Non-trivial = the case "
     "contains a path git must refuse or a symlink leaving the work tree / entering .git AND an operation materialised at "
-    "least one entry or refused a path; distinct by the full case."
+    "least one entry or refused a path; distinct by the full case.  Cases are drawn with random.Random(seed, shard) from the "
+    "enumerated pools (no Hypothesis); a failing case is reduced by a bounded greedy minimiser (drop steps, tree entries, "
+    "patch files, settings) that must keep the same bucket; replays/C17 pins one regression input per operation and shape."
 )
 ASSUMPTIONS = [
     "we run as root: confinement is observed through canary snapshots of the scratch root and of .git, not enforced by the OS",
@@ -41,6 +43,8 @@ ASSUMPTIONS = [
     "'must be refused' is the lower bound written from git's documentation (empty/./.. component, any-case .git, NTFS and HFS "
     "spellings under the respective setting); C git 2.39.5 is checked in-run to refuse every such path; permission bits of files "
     "inside the work tree are exercised, not judged",
+    "an operation that burns more than 6 s of CPU time (porcelain.status walks symlink cycles exponentially) is cut off and judged on "
+    "what it had written until then; after the first violating step of a case the remaining steps are not run (secondary damage)",
 ]
 
 SITE = {
@@ -722,7 +726,7 @@ def _fails_with(ctx, case, bucket):
     return bucket in p.buckets
 
 
-def minimise(ctx, case, bucket, budget=80):
+def minimise(ctx, case, bucket, budget=40):
     import copy
 
     best = copy.deepcopy(case)
